@@ -454,13 +454,22 @@ impl Action {
         fallback_status_code: u16,
         unit_trace: &mut UnitTrace,
     ) -> (u16, u16) {
-        let action_status_code = self.get_status_code(response_status_code, Some(unit_trace));
-        if response_status_code == 0 && action_status_code == 0 {
-            let final_status_code = self.get_status_code(fallback_status_code, Some(unit_trace));
-            (final_status_code, fallback_status_code)
-        } else {
-            (action_status_code, response_status_code)
+        // Request phase first, as the proxies (and the other analyses) do: a rule without response
+        // status condition answers before any backend response, whatever the backend would have returned
+        let action_status_code = self.get_status_code(0, Some(unit_trace));
+
+        if action_status_code != 0 {
+            return (action_status_code, action_status_code);
         }
+
+        let backend_status_code = if response_status_code == 0 {
+            fallback_status_code
+        } else {
+            response_status_code
+        };
+        let final_status_code = self.get_status_code(backend_status_code, Some(unit_trace));
+
+        (final_status_code, backend_status_code)
     }
 
     pub fn get_status_code(&mut self, response_status_code: u16, unit_trace: Option<&mut UnitTrace>) -> u16 {
